@@ -244,6 +244,24 @@ def run_history(impl, hist, want_lines=True):
             before_enter[o] = {i: impl.setting_val(i) for i, _ in seq}
             objs[o].__enter__()
             touched = {i for i, _ in seq}
+            # "takes effect on entry": every slot the context names now holds the instance value
+            pobjs = [objs[o]] if not isinstance(p, dict) else [w for w in _part_objects(objs[o], impl)]
+            for po in pobjs:
+                i = impl.idx.get(type(po).__name__)
+                if i is None:
+                    continue
+                base = impl.meta[i]["base"]
+                if base == "_feature_flag":
+                    want, got = (po.state,), impl.setting_val(i)
+                elif base == "_value_context":
+                    want, got = (po._instance_value,), impl.setting_val(i)
+                else:
+                    inst = (po._instance_float_value, po._instance_double_value, po._instance_half_value)
+                    cur = impl.setting_val(i)
+                    want = tuple(w for w in inst if w is not None)
+                    got = tuple(c for w, c in zip(inst, cur) if w is not None)
+                if not _same(want, got):
+                    fails.append((f"enter-did-not-take-effect {impl.meta[i]['name']}: got {got} want {want}", ev))
             # emit one line per part; intermediate impl states are not observable -> compare only the last
             if isinstance(p, dict) and not p.get("modelled", True):
                 desync[0] = True
@@ -286,6 +304,18 @@ def run_history(impl, hist, want_lines=True):
         states = [None] * len(states)
     run_history.unmodelled = sorted(set(fails_unmodelled))
     return lines, states, fails
+
+
+def _same(a, b):
+    return len(a) == len(b) and all((x is y) or (type(x) is type(y) and x == y) for x, y in zip(a, b))
+
+
+def _part_objects(obj, impl):
+    for attr, v in vars(obj).items():
+        vs = v if isinstance(v, (list, tuple)) else (list(v.values()) if isinstance(v, dict) else [v])
+        for w in vs:
+            if isinstance(w, impl.bases):
+                yield w
 
 
 def well_nested(hist):
